@@ -110,7 +110,12 @@ def run(R):
         R.rng.shuffle(rest)
         near = [p for p in allp if p[2] < 6 and p not in must]
         R.rng.shuffle(near)
-        sel = must + rest[:24] + near[:12]
+        import math
+        guided = R.tightest_pieces(h, "tan", [p for p in allp if not (p[0] <= PHI2 <= p[1])],
+                                   lambda x: 65536 * math.tan(x / 65536.0),
+                                   lambda x: 2.5 * (1 + math.tan(x / 65536.0) ** 2), k=10)
+        sel = must + rest[:16] + near[:8]
+        sel += [p for p in guided if p not in sel]
         R.bounds.append("quick tier: %d of %d pieces of [0, pi] (branch points, the pole's neighbourhood, and a VERIF_SEED "
                         "sample); thorough covers every raw x in [0, 205887]; the negative half follows from the proved "
                         "oddness" % (len(sel), len(allp)))
